@@ -209,7 +209,21 @@ def run(cx):
         resp = arg_origin(wr[0], 1, o)
         # the response is the select! output of the branch that polls the oneshot future
         var = [x for x in walk(resp) if x[0] == "variant" and x[2].startswith("_")]
-        ok = bool(var) and term_has_call(resp, "Result::expect")
+        rs = strip_identity(resp)
+        # the written value must BE the unwrapped select output (not a phi / rebuilt response)
+        ok = bool(var) and rs[0] == "call" and name_matches(rs[1], ("Result::expect", "Result::unwrap", "Result::into_ok", "Result::unwrap_or_else"))
+        if ok:
+            t_ = strip_identity(rs[2][0])
+            reached = False
+            for _ in range(8):
+                if t_[0] == "variant" and t_[2].startswith("_"):
+                    reached = True
+                    break
+                if t_[0] in ("field", "variant"):
+                    t_ = strip_identity(t_[1])
+                    continue
+                break
+            ok = reached      # spine root → select output is made of projections only (no phi, no rebuilt value)
         if ok:
             idx = int(var[0][2][1:])
             futs = [s for bl in co.blocks if not bl.get("cleanup") for s in bl["s"] if s["k"] == "assign" and s["rv"]["k"] == "agg" and s["rv"]["ak"] == "tuple"
